@@ -191,6 +191,9 @@ class NatSpec(object):
     def concrete_array(self, data):
         return np.asarray(data)
 
+    def asarray(self, x):
+        return np.asarray(x)
+
     def is_dimarray(self, x):
         return isinstance(x, self.da.DimArray)
 
